@@ -1158,13 +1158,6 @@ func runCase(tr *hx.Trace, kind string, c *Case, withCoq bool) (key string, last
 		r.Coq = coqCase(c, obs)
 	}
 
-	for _, o := range obs {
-		if o.MetaPIID != "" && o.WirePth != "" {
-			// the machine does not track the thread metadata store: such histories are judged by the direct oracle only
-			r.Coq = ""
-		}
-	}
-
 	if w.disp != nil {
 		// every channel registered throughout must have received exactly what the observer received
 		w.disp.mu.Lock()
